@@ -87,11 +87,11 @@ THEOREMS = {
     'C16_decode_encodeChar': 'for EVERY character c and byte string rest: bytes.decode("utf-8", "replace") of (c.encode("utf-8") + rest) is c followed by the decoding of rest (all four UTF-8 lengths, incl. the restricted second bytes after E0 / ED / F0 / F4); no hypothesis',
     'C16_filename_bytes_roundtrip': 'for EVERY string s: s.encode("utf-8").decode("utf-8", "replace") = s, so an error whose filename attribute is the UTF-8 byte form of a name has the get_filename() and the format_error text of the error carrying the str name; no hypothesis',
     'C16_decode_length': 'the replace-decoder yields at most one character per byte and at least one character for a non-empty byte string',
-    'C16_filename_bytes_total': 'UNDER Err.WF (TokenRequired parser state in range, as C16_render_total): with EVERY byte string as filename attribute, ill-formed UTF-8 included, get_filename() and format_error are defined, and a non-empty byte name decodes to a non-empty name (the "name: " prefix is not lost)',
+    'C16_filename_bytes_total': 'UNDER Err.WF (as C16_render_total): with EVERY byte string as filename attribute, ill-formed UTF-8 included, format_error is defined (= C16_render_total after decoding) and a non-empty byte name decodes to a non-empty name; that get_filename() itself is defined is [by construction]: the model decoder is a total function; for the five classes without a file-name argument the model ignores the attribute',
     'C16_filename_bytes_prefix': 'UNDER Err.WF, for an error of a class whose constructor takes a file name (plain classes, syntax errors, TokenRequired, AuxDataError) and EVERY NON-EMPTY byte string as that name: every line of format_error (context lines and message line) starts with the decoded name + ": "',
     'C16_splitlines_lossless': 'str.splitlines as modelled, for EVERY text: with keepends the pieces concatenate to the text again; without it no piece contains a line separator',
     'C16_context_lines_single': 'for every error value whose context is defined: each context line format_error puts before the message contains no line separator (it is ONE line and gets its own file-name prefix)',
-    'C16_eq_equivalence': 'PybtexError.__eq__ (str(self) == str(other)) is reflexive, symmetric, transitive, contains identity of values, and __hash__ is consistent with it, for all error values of all classes',
+    'C16_eq_equivalence': '[by construction: __eq__ is modelled as equality of str(), __hash__ as str(); tie = op erreq] PybtexError.__eq__ (str(self) == str(other)) is reflexive, symmetric, transitive, contains identity of values, and __hash__ is consistent with it, for all error values of all classes',
     'C16_eq_ignores_location_neg': 'witness: an AuxDataError in a.aux line 3 with context and a PybtexError in b.bib are == although class, file name and format_error differ: == on captured lists cannot tell problems apart that differ in class or location',
     'C16_decode_illformed_examples': 'kernel-evaluated instances of the maximal-subpart replacement rule of CPython (stray continuation byte, over-long lead, restricted second byte, truncated prefix before ASCII, surrogate, above U+10FFFF, prefix cut off by the end)',
     'C16_fs_encoding_modelled': '[table check] the codec of sys.getfilesystemencoding() of the running interpreter (Gen/C16Tables.lean, regenerated on every run) is the UTF-8 the byte-file-name model decodes with',
